@@ -42,6 +42,8 @@ def register(db):
     register_set_data(db)
     register_encode_data(db)
     register_set_data_tail(db)
+    register_xsi_type_helpers(db)
+    register_add_attribute(db)
     P = ["C03"]
     # abstract SAX callbacks: their calls are recorded on the ghost trace
     for m in ("start_document", "end_document", "start_element", "end_element", "set_characters",
@@ -291,3 +293,50 @@ def register_encode_data(db):
         params={"self": handler(2, None), "data": lambda mk, base: mk.plist([])},
         ensures=[("no-content", "result is None")], raises={}, returns="str|None", properties=["C03"],
     ))
+
+
+def register_xsi_type_helpers(db):
+    """real_xsi_type / is_xsi_type: an xsi:type is written exactly when the type of the value differs from the type the
+    field declares; an attribute value is treated as a type name (and gets a prefix instead of Clark notation) exactly
+    when it is a Clark-notation string and either the attribute is xsi:type or the name is a schema datatype."""
+    M = "xsdata.formats.dataclass.serializers.mixins"
+
+    def cls_of(name):
+        def mk_(mk, base):
+            from pyvc.values import ClassRef
+            return ClassRef(M, name)
+        return mk_
+
+    db.add(Contract(
+        f"{M}:EventGenerator.real_xsi_type", params={"cls": cls_of("EventGenerator"), "qname": "str", "target_qname": "str|None"},
+        ensures=[("no-xsi-type-when-the-value-has-the-declared-type", "implies(target_qname == qname, result is None)"),
+                 ("otherwise-the-value-type", "implies(target_qname != qname, result == target_qname)")],
+        raises={}, returns="str|None", properties=["C03"],
+    ))
+    XSI_TYPE = "{http://www.w3.org/2001/XMLSchema-instance}type"
+    db.add(Contract(
+        f"{M}:EventHandler.is_xsi_type", params={"cls": cls_of("EventHandler"), "qname": "str", "value": "str"},
+        ensures=[("a-type-name-is-a-clark-string-on-xsi-type-or-a-schema-datatype-name",
+                  f"result == (value[0:1] == '{{' and (qname == '{XSI_TYPE}' or uf('DataType.from_qname', 'u:DataType|None', value) is not None))")],
+        raises={}, returns="bool", properties=["C03"], inline_calls=True,
+    ))
+
+
+def register_add_attribute(db):
+    """EventHandler.add_attribute: the value is encoded once (encode_data: QName values get their prefix in the
+    element's scope) and stored under the attribute's (namespace, local name); outside the root, an attribute without a
+    pending start tag is the writer's own error."""
+    XSI_TYPE = "{http://www.w3.org/2001/XMLSchema-instance}type"
+    ENC = "EventHandler.encode_data"
+    for pend in ("qualified", None):
+        db.add(Contract(
+            f"{EH}.add_attribute", variant="pending-tag" if pend else "no-pending-tag",
+            params={"self": handler(1, pend), "qname": "str", "value": "int", "root": "bool"},
+            requires=["len(qname) > 0"],
+            ensures=[("encoded-once-and-stored-under-the-split-name",
+                      f"called('{ENC}') == 1 and call_arg('{ENC}', 1) == value and clark_split(qname) in self.attrs and "
+                      f"self.attrs[clark_split(qname)] == call_result('{ENC}')")],
+            raises=({} if pend else {"XmlWriterError": "not root"}) | {"ConverterError": True},
+            modifies=["self.attrs", "self.ns_map"], properties=["C03"],
+            note="stated for a non-string value (a string that is an xsi:type name is turned into a QName first)",
+        ))
